@@ -104,6 +104,11 @@ def check_L(part, job):
                   float(np.abs(np.asarray(gx2, dtype=float).reshape(theta.shape) - np.sin(theta) * np.cos(phi)).max()))
         vals = np.asarray(sht.compute_on_grid(lambda th, ph: np.cos(th) + 0.5 * np.sin(th) * np.cos(ph)))
         dev = max(dev, float(np.abs(vals - (np.cos(theta) + 0.5 * np.sin(theta) * np.cos(phi))).max()))
+        # functions of ONE angle only (zonal; sectorial): the samples are still one value per grid point, (ntheta, nphi)
+        for fname_, fn_, want_ in (("theta only", lambda th, ph: np.cos(th) ** 2, np.cos(theta) ** 2), ("phi only", lambda th, ph: np.cos(2 * ph), np.cos(2 * phi))):
+            v_ = np.asarray(sht.compute_on_grid(fn_))
+            if v_.shape != theta.shape or not (np.abs(v_ - want_).max() <= 1e-12):
+                part.fail("compute_on_grid-shape", "L=%d: compute_on_grid of a function of %s returns shape %s, the grid has %s points" % (L, fname_, v_.shape, theta.shape), case)
         if not (dev <= 1e-12):
             part.fail("grid-aliased", "L=%d: after the caller converted the arrays returned by grid / grid_cartesian in place, the object's grid (or a function "
                       "computed on it) has moved by %.3g: returned arrays share memory with the object's state" % (L, dev), case)
